@@ -212,14 +212,14 @@ Proof. unfold method_request_string. destruct k; try conc. destruct P; try conc.
 Lemma dict_decode_head_safe fmt P A rq :
   wf_app A = true -> dict_request_ok P rq ->
   safe (dict_decode_head fmt P A rq) /\
-  forall c k v, dict_decode_head fmt P A rq = Ret (c, k, v) -> (c < length (a_classes A))%nat.
+  forall m k v, dict_decode_head fmt P A rq = Ret (m, k, v) -> ty_wf (length (a_classes A)) (ms_ty m) = true.
 Proof.
   intros WF Hr. unfold dict_decode_head.
   pose proof (dict_create_in_document_safe P rq Hr) as Hc.
   destruct (dict_create_in_document P rq) as [doc|e c]; [|split; [exact Hc|discriminate]].
   cbn [rbind].
-  set (bad := @guard_raise (nat * jv * jv) g_dict_one_key true (Raise EValueError []) (Raise EValueError [])).
-  assert (Bad : safe bad /\ forall c k v, bad = Ret (c, k, v) -> (c < length (a_classes A))%nat).
+  set (bad := @guard_raise (msig * jv * jv) g_dict_one_key true (Raise EValueError []) (Raise EValueError [])).
+  assert (Bad : safe bad /\ forall c k v, bad = Ret (c, k, v) -> ty_wf (length (a_classes A)) (ms_ty c) = true).
   { split; [conc|]. intros c k v. vm_compute. discriminate. }
   destruct doc as [| | | | | | |kv|]; try exact Bad.
   destruct kv as [|[k v] [|]]; try exact Bad.
@@ -231,12 +231,23 @@ Proof.
   cbn [rbind]. split; [conc|]. intros c' k' v' H. inversion H; subst. apply Hl; reflexivity.
 Qed.
 
-Lemma dict_deserialize_safeF P soft A fuel c k v :
-  wf_app A = true -> (c < length (a_classes A))%nat -> safeF (dict_deserialize P soft A fuel c k v).
+Lemma complex_of_wf A t :
+  ty_wf (length (a_classes A)) t = true -> match t with TLeaf _ => True | _ => complex_wf A t = true end.
+Proof. destruct t; simpl; auto; discriminate. Qed.
+
+Lemma dict_deserialize_safeF P soft A fuel m k v :
+  wf_app A = true -> ty_wf (length (a_classes A)) (ms_ty m) = true ->
+  safeF (dict_deserialize P soft A fuel m k v).
 Proof.
-  intros WF Hc. unfold dict_deserialize. cbv zeta.
-  match goal with |- safeF (if ?b then _ else _) => destruct b end; [|exact I].
-  apply doc_to_object_safeF; auto. simpl. apply Nat.ltb_lt. exact Hc.
+  intros WF Wm. unfold dict_deserialize. cbv zeta.
+  match goal with |- context [if ?b then v else JNull] => set (doc := if b then v else JNull) end. clearbody doc.
+  pose proof (complex_of_wf A _ Wm) as Hc.
+  assert (G : safeF (match ms_ty m with
+                     | TLeaf kd => leaf_from_dict_value P soft kd (ms_nillable m) doc
+                     | t => doc_to_object P soft A fuel t doc end)).
+  { destruct (ms_ty m); try (apply doc_to_object_safeF; auto).
+    apply safe_safeF, leaf_from_dict_value_safe. }
+  destruct (ms_bare m); [destruct doc; try exact G; exact I | exact G].
 Qed.
 
 (** ---- fuel: the descent is bounded by the nesting of the declared types ---- *)
